@@ -283,6 +283,46 @@ impl BlockchainSyncState {
         self.remove_fetched_blocks();
     }
 
+    /// Mark the block as "fetched" for the peer it was fetched from only. The same block can still be
+    /// in flight from another peer, whose quota must not be released before that fetch completes.
+    pub fn mark_as_fetched_from_peer(&mut self, peer_index: PeerIndex, hash: SaitoHash) {
+        debug!(
+            "marking block : {:?} as fetched from peer : {:?}",
+            hash.to_hex(),
+            peer_index
+        );
+        if let Some(deq) = self.blocks_to_fetch.get_mut(&peer_index) {
+            for block_data in deq {
+                if hash.eq(&block_data.block_hash) {
+                    block_data.status = BlockStatus::Fetched;
+                    break;
+                }
+            }
+        }
+
+        self.remove_fetched_blocks();
+    }
+
+    /// Removes the entries of a block which was added to the blockchain, except the ones which are still
+    /// being fetched: those keep occupying their peer's quota until the fetch completes or fails.
+    pub fn remove_entry_unless_fetching(&mut self, block_hash: SaitoHash) {
+        for (_, deq) in self.blocks_to_fetch.iter_mut() {
+            deq.retain(|block_data| {
+                block_data.block_hash != block_hash
+                    || matches!(block_data.status, BlockStatus::Fetching)
+            });
+        }
+        self.blocks_to_fetch.retain(|_, deq| !deq.is_empty());
+    }
+
+    /// Removes the entry of a single peer (e.g. when that peer cannot serve the block)
+    pub fn remove_entry_for_peer(&mut self, peer_index: PeerIndex, block_hash: SaitoHash) {
+        if let Some(deq) = self.blocks_to_fetch.get_mut(&peer_index) {
+            deq.retain(|block_data| block_data.block_hash != block_hash);
+        }
+        self.blocks_to_fetch.retain(|_, deq| !deq.is_empty());
+    }
+
     /// Removes all the entries related to fetched blocks and removes any empty collections from memory
     ///
     /// # Arguments
